@@ -134,7 +134,16 @@ func HarnessAttrQuery() {
 		return
 	}
 	st.sp = sp
+	// history (C12 / C15): nothing | an earlier attribute query of the same service provider,
+	// served under another host by a provider that derives its issuer from the request
+	hist := 0
+	if (vrtProp("C12") || vrtProp("C15")) && doc != nil && vrtBool("hist.attrquery") {
+		hist = 5
+		vrtHostIssuer = true
+		vrtEarlierEntityID = string(doc.EntityID)
+	}
 	p := vrtNewProviderWith(st, false)
+	vrtEarlierRequest(p, st, hist)
 
 	rb := vrtNewRequest("req", vrtStr("req.method"), vrtAttrPath)
 	env := &soap.AttributeQueryEnvelope{}
@@ -157,6 +166,15 @@ func HarnessAttrQuery() {
 			aq.Attribute = vrtRequestedAttrs(vrtBound("requested attributes", 1, 2))
 		}
 		body = vrtWireXML(env)
+	}
+	if hist != 0 {
+		// bound profile of the history dimension: the request under test is a decodable query
+		// without attribute filter for a user without custom attributes (what stays open: issuer,
+		// destination, signature, subject)
+		vrtAssume(!isGarbage)
+		vrtAssume(aq != nil && len(aq.Attribute) == 0)
+		vrtAssume(st.user.nCustom == 0)
+		vrtAssume(!vrtBool("body.readfails"))
 	}
 	vrtReqBody(rb, body, vrtBool("body.readfails"))
 	rp, panicked := vrtServe(p, rb)
